@@ -25,6 +25,19 @@ MOD = "mc.props.c11"
 # (a) transform lists
 
 OPV = {
+    # magnitudes: powers of two far from 1 (exact in binary floating point, so the specification product is exact too):
+    # a translation of 2^-40 behind a scale of 2^40 moves the origin by exactly 1
+    "mag": [
+        ("translate", [2.0 ** -40]),
+        ("translate", [3 * 2.0 ** -35, -(2.0 ** -33)]),
+        ("translate", [2.0 ** 40, 1]),
+        ("translate", [0, 2.0 ** -31]),
+        ("scale", [2.0 ** 40]),
+        ("scale", [2.0 ** -40, 2.0 ** -20]),
+        ("scale", [1]),
+        ("matrix", [2.0 ** -30, 0, 0, 2.0 ** -30, 2.0 ** -31, 0]),
+        ("matrix", [2.0 ** 35, 0, 0, 2.0 ** 33, 0, 2.0 ** -29]),
+    ],
     "full": [
         ("matrix", [1, 0, 0, 1, 0, 0]),
         ("matrix", [0.5, 1, -2, 0.5, 30, 1e1]),
@@ -413,6 +426,10 @@ def cases(tier, seed):
     for i in range(len(OPV["full"])):
         yield {"fam": "lists", "vset": "full", "first": i, "len": 1, "styles": styles}
         yield {"fam": "lists", "vset": "full", "first": i, "len": 2, "styles": styles}
+    for i in range(len(OPV["mag"])):
+        yield {"fam": "lists", "vset": "mag", "first": i, "len": 1, "styles": styles[:2]}
+        yield {"fam": "lists", "vset": "mag", "first": i, "len": 2, "styles": styles[:2]}
+        yield {"fam": "lists", "vset": "mag", "first": i, "len": 3, "styles": styles[:1]}
     for i in range(len(OPV["mid"])):
         yield {"fam": "lists", "vset": "mid", "first": i, "len": 3, "styles": styles}
         if tier == "thorough":
@@ -445,7 +462,7 @@ def cases(tier, seed):
 def run(run):
     run.rule = (
         "E2: (a) transform lists = products of per-operation variants (matrix/translate 1-2/scale 1-2/rotate 1|3/skewX/skewY over "
-        "{0,1,-2,.5,30,90,1e1}) x 6 separator styles, length 1-3 (quick) / 1-5 (thorough), vs the specification product of R2 "
+        "{0,1,-2,.5,30,90,1e1}) x 6 separator styles, length 1-3 (quick) / 1-5 (thorough), plus lists of length 1-3 over 9 translate / scale / matrix operations with powers of two between 2^-40 and 2^40, vs the specification product of R2 "
         "(exact equality for rational operations); (b) real Affine2D over exact int/Fraction entries: all 6^6 matrices over "
         "{-2,-1,0,1/2,1,3} (det, map_point, inverse, M.M^-1=I, degenerate rule, tostring/fromstring), the same with the linear part scaled by 2^k (k in -60..30; thorough -500..500), all ordered pairs over {-1,0,2}^6 "
         "(quick) / {-1,0,1/2,2}^6 (thorough) for compose order, triples of a sparse set for associativity; (c) rect_to_rect for all src/dst "
